@@ -518,3 +518,302 @@ def rule_eoo_probe_boundary(ctx):
                    if mid else 'fresh element', node=c)
     if n < 6:
         raise AnalysisError('A8.probe: found only %d decodeFun calls that allow end-of-octets' % n)
+
+
+# ------------------------------------------------------------------- W.real10in
+
+def rule_real_initialisers_normalised(ctx):
+    """W.real10in: every base-10 triple that `Real.prettyIn` returns has been through the base-10 normaliser, whichever
+    kind of initialiser it was made from (triple, int, float, text): the canonical encoders write the stored triple as
+    it is, so 1200 built from an int and from a float must be stored as the same (12, 10, 2)."""
+    f = ctx.func('type.univ.Real.prettyIn')
+    cfg = ctx.cfg(f)
+
+    def is_norm_call(e):
+        return isinstance(e, ast.Call) and norm(e.func).replace('_Real', '').endswith('__normalizeBase10')
+    n = 0
+    for node in cfg.stmt_nodes():
+        r = node.ast
+        if not isinstance(r, ast.Return) or r.value is None:
+            continue
+        v = r.value
+        if is_norm_call(v):
+            n += 1
+            ctx.ob('W.real10in', f, '`%s`' % norm(r)[:60], True, 'normalised', node=r)
+        elif isinstance(v, ast.Tuple) and len(v.elts) == 3:
+            base = v.elts[1]
+            ok = isinstance(base, ast.Constant) and base.value != 10
+            n += 1
+            ctx.ob('W.real10in', f, '`%s`' % norm(r)[:60], ok,
+                   'a base-10 triple is returned as it was built: trailing zero digits of the mantissa stay in the mantissa, and the '
+                   'same number initialised another way is stored - and written by DER / CER - differently', node=r)
+        elif isinstance(v, ast.Name):
+            from sa.cfg import known_at
+            if not known_at(cfg, node, 'isinstance(%s, tuple)' % v.id, True):
+                continue        # not the triple arm (a float infinity is returned as it is)
+            tests = [t for t in cfg.nodes if t.kind == 'test' and t.ast is not None and norm(t.ast.test) in ('%s[1] == 10' % v.id, '10 == %s[1]' % v.id)]
+            norms = [x for x in cfg.stmt_nodes() if x.kind == 'stmt' and isinstance(x.ast, ast.Assign) and is_norm_call(x.ast.value) and
+                     any(isinstance(t, ast.Name) and t.id == v.id for t in x.ast.targets)]
+            ok = False
+            for t in tests:
+                if not cfg.dominates(t, node):
+                    continue
+                starts = [s for s, lab in t.succs if lab == 'true']
+                leak = False
+                for s0 in starts:
+                    if s0 in norms:
+                        continue
+                    if s0 is node or node in cfg.reachable(s0, avoid=norms):
+                        leak = True
+                ok = not leak
+            n += 1
+            ctx.ob('W.real10in', f, '`%s`' % norm(r)[:60], ok,
+                   'the triple handed in is returned without the base-10 normaliser on the `[1] == 10` side', node=r)
+    if n < 3:
+        raise AnalysisError('W.real10in: found only %d triple returns in %s' % (n, f.short))
+
+
+# ------------------------------------------------------------------- A3.segjoin
+
+def rule_segment_kinds(ctx):
+    """A3.segjoin: a segment handed back by `decodeFun(..., substrateFun=...)` inside a constructed string is raw octets
+    when the collector captured it, but a decoded string OBJECT when the segment is itself in the indefinite form (the
+    item decoder decodes it).  Both kinds support `+` / `+=` and indexing; only octets can be given to `bytes.join`,
+    `bytes()` or `bytearray()`.  No segment (or list of segments) reaches one of those: TypeError would leave the decoder."""
+    dec_modules = ('pyasn1.codec.ber.decoder', 'pyasn1.codec.cer.decoder', 'pyasn1.codec.der.decoder')
+    nloops = 0
+    for f in ctx.prog.all_functions():
+        if f.module.name not in dec_modules:
+            continue
+        seeds = set()
+        for lp in walk_own(f.node):
+            if isinstance(lp, ast.For) and isinstance(lp.iter, ast.Call) and isinstance(lp.iter.func, ast.Name) and \
+                    lp.iter.func.id == 'decodeFun' and any(k.arg == 'substrateFun' for k in lp.iter.keywords) and isinstance(lp.target, ast.Name):
+                seeds.add(lp.target.id)
+                nloops += 1
+        if not seeds:
+            continue
+        taint = set(seeds)
+        changed = True
+        while changed:
+            changed = False
+            for n in walk_own(f.node):
+                tgt, val = None, None
+                if isinstance(n, ast.Assign) and len(n.targets) == 1 and isinstance(n.targets[0], ast.Name):
+                    tgt, val = n.targets[0].id, n.value
+                elif isinstance(n, ast.AugAssign) and isinstance(n.target, ast.Name):
+                    tgt, val = n.target.id, n.value
+                elif isinstance(n, ast.Call) and isinstance(n.func, ast.Attribute) and n.func.attr in ('append', 'extend', 'insert') and \
+                        isinstance(n.func.value, ast.Name):
+                    tgt, val = n.func.value.id, ast.Tuple(elts=list(n.args), ctx=ast.Load())
+                if tgt is None or tgt in taint:
+                    continue
+                # a call result is a new value (fromOctetString(...), _createComponent(...)); containers and arithmetic carry it
+                carried = False
+                for x in ast.walk(val):
+                    if isinstance(x, ast.Name) and x.id in taint:
+                        inside_call = False
+                        for c in ast.walk(val):
+                            if isinstance(c, ast.Call) and any(x is y for a in c.args for y in ast.walk(a)) and \
+                                    not (isinstance(c.func, ast.Name) and c.func.id in ('list', 'tuple', 'reversed', 'sorted')):
+                                inside_call = True
+                        if not inside_call:
+                            carried = True
+                if carried:
+                    taint.add(tgt)
+                    changed = True
+        bad = []
+        for c in walk_own(f.node):
+            if not isinstance(c, ast.Call):
+                continue
+            sink = None
+            if isinstance(c.func, ast.Attribute) and c.func.attr == 'join' and c.args:
+                sink = c.args[0]
+            elif isinstance(c.func, ast.Name) and c.func.id in ('bytes', 'bytearray', 'ints2octs') and c.args:
+                sink = c.args[0]
+            if sink is not None and any(isinstance(x, ast.Name) and x.id in taint for x in ast.walk(sink)):
+                bad.append(c)
+        ctx.ob('A3.segjoin', f, 'segments are combined only through operations both kinds of segment support', not bad,
+               '`%s` (line %d) is given segments that may be string objects (a nested segment in the indefinite form, `24 80 24 80 04 01 61 '
+               '00 00 00 00`): TypeError leaves the decoder' % (norm(bad[0])[:50], bad[0].lineno) if bad else 'only `+`, `+=`, indexing', node=bad[0] if bad else f.node)
+    if nloops < 4:
+        raise AnalysisError('A3.segjoin: found only %d segment loops' % nloops)
+
+
+# ------------------------------------------------------------------- C10.strictdec
+
+def rule_strict_text_codecs(ctx):
+    """C10.strictdec: character-string types turn octets into text (and back) with the STRICT error handler: a `decode` /
+    `encode` call with another handler (`'replace'`, `'ignore'`, `'surrogatepass'`, ...) makes octets that are not text of
+    the type's encoding an accepted value - which the library's own encoder then cannot write."""
+    n = 0
+    for q in ('type.char', 'type.univ'):
+        m = ctx.mod(q)
+        for f in ctx.prog.all_functions():
+            if f.module is not m or f.cls is None:
+                continue
+            if f.name not in ('prettyIn', 'asOctets', '__bytes__', '__str__', 'prettyOut', '__unicode__'):
+                continue
+            for c in walk_own(f.node):
+                if isinstance(c, ast.Call) and isinstance(c.func, ast.Attribute) and c.func.attr in ('decode', 'encode') and \
+                        c.args and norm(c.args[0]).endswith('.encoding'):
+                    n += 1
+                    handler = None
+                    if len(c.args) > 1:
+                        handler = c.args[1]
+                    for k in c.keywords:
+                        if k.arg == 'errors':
+                            handler = k.value
+                    ok = handler is None or (isinstance(handler, ast.Constant) and handler.value == 'strict')
+                    ctx.ob('C10.strictdec', f, '`%s` uses the strict error handler' % norm(c)[:50], ok,
+                           'error handler %s: octets that are not well-formed %s are accepted as a value (for instance a lone surrogate '
+                           '`ED A0 BF` in a UTF8String), and the encoder refuses the value the decoder returned' % (
+                               norm(handler) if handler is not None else '', 'text of the type\'s encoding') if not ok else 'strict', node=c)
+    if n < 5:
+        raise AnalysisError('C10.strictdec: found only %d text codec calls' % n)
+
+
+# ------------------------------------------------------------------- A6.form
+
+def rule_form_by_base_tag(ctx):
+    """A6.form: a payload decoder tells the primitive from the constructed form of the value it decodes by the BASE tag of
+    the recovered tag set (`tagSet[0]`, the innermost TLV - the one whose contents it is about to read).  The outer tags
+    of an explicitly tagged value are always constructed; every payload decoder and the item decoder index the same
+    way."""
+    n = 0
+    for mq in ('codec.ber.decoder', 'codec.cer.decoder', 'codec.der.decoder'):
+        m = ctx.mod(mq)
+        for f in ctx.prog.all_functions():
+            if f.module is not m:
+                continue
+            for x in walk_own(f.node):
+                if isinstance(x, ast.Attribute) and x.attr == 'tagFormat' and isinstance(x.ctx, ast.Load) and \
+                        isinstance(x.value, ast.Subscript) and not isinstance(x.value.slice, ast.Slice):
+                    idx = x.value.slice
+                    n += 1
+                    k = None
+                    if isinstance(idx, ast.Constant) and isinstance(idx.value, int):
+                        k = idx.value
+                    elif isinstance(idx, ast.UnaryOp) and isinstance(idx.op, ast.USub) and isinstance(idx.operand, ast.Constant):
+                        k = -idx.operand.value
+                    ctx.ob('A6.form', f, 'encoding form read from the base tag: `%s`' % norm(x), k == 0,
+                           'index %s: under an EXPLICIT tag this is the wrapper (always constructed), so a primitive value of the type is '
+                           'taken for a segmented one and the type rejects its own encoding' % norm(idx) if k != 0 else 'tagSet[0]', node=x)
+    if n < 9:
+        raise AnalysisError('A6.form: found only %d tagFormat reads' % n)
+
+
+# ------------------------------------------------------------------- C14.consult
+
+def rule_consistency_consults(ctx):
+    """C14.consult: `isInconsistent` of the two container bases answers "consistent" (a false value) only after the
+    constraints were called on the components - or because there are no constraints / no component type at all.  An empty
+    but set SEQUENCE OF has components to count: SIZE (1..3) must be able to object."""
+    from sa.cfg import _cuts, _literals
+    n = 0
+    for q in ('type.univ.SequenceOfAndSetOfBase.isInconsistent', 'type.univ.SequenceAndSetBase.isInconsistent'):
+        f = ctx.func(q)
+        cfg = ctx.cfg(f)
+        calls = [x for x in cfg.stmt_nodes() if x.ast is not None and any(
+            isinstance(c, ast.Call) and norm(c.func) == 'self.subtypeSpec' for e in _exprs(x) for c in ast.walk(e))]
+        if not calls:
+            raise AnalysisError('constraint call not found in %s' % f.short)
+        for r in cfg.stmt_nodes():
+            if not (isinstance(r.ast, ast.Return) and isinstance(r.ast.value, ast.Constant) and not r.ast.value.value):
+                continue
+            n += 1
+            consulted = cfg.must_pass(cfg.entry, r, lambda m: m in calls)
+            excused = None
+            if not consulted:
+                for t in cfg.nodes:
+                    if t.kind != 'test' or t.ast is None:
+                        continue
+                    kind, lits = _literals(t.ast.test)
+                    texts = [(tx, pol) for tx, pol, e in lits]
+                    no_constraints = ('self.subtypeSpec', False) in texts or ('self.componentType is noValue', True) in texts
+                    if kind in ('lit', 'or') and no_constraints and all(
+                            (tx, pol) in (('self.subtypeSpec', False), ('self.componentType is noValue', True)) for tx, pol in texts) and \
+                            _cuts(cfg, t, 'true', r):
+                        excused = t
+            ok = consulted or excused is not None
+            ctx.ob('C14.consult', f, '`%s` (line %d) follows the constraint call or the "no constraints" test' % (norm(r.ast), r.ast.lineno), ok,
+                   'this answer is given without asking `subtypeSpec`: a value the constraints forbid (an emptied SEQUENCE OF under '
+                   'SIZE (1..3)) passes as consistent and every encoder writes it' if not ok else
+                   ('after the constraint call' if consulted else 'no constraints / no component type'), node=r.ast)
+    if n < 4:
+        raise AnalysisError('C14.consult: found only %d falsy answers' % n)
+
+
+def _exprs(nd):
+    from sa.cfg import node_exprs
+    return node_exprs(nd)
+
+
+# ------------------------------------------------------------------- C17.items
+
+def rule_items_positional(ctx):
+    """C17.items: the native record encoder pairs the i-th pair of `value.items()` with the i-th named type
+    (`enumerate(value.items())`, `namedTypes[idx]`).  `items()` / `values()` of the record base therefore produce exactly
+    one element per position: every pass through their loop yields."""
+    enc = ctx.func('codec.native.encoder.SetEncoder.encode')
+    pairs = [lp for lp in walk_own(enc.node) if isinstance(lp, ast.For) and isinstance(lp.iter, ast.Call) and
+             norm(lp.iter.func) == 'enumerate' and lp.iter.args and norm(lp.iter.args[0]).endswith('.items()')]
+    uses = [x for lp in pairs for x in ast.walk(lp) if isinstance(x, ast.Subscript) and norm(x.value) == 'namedTypes']
+    if not pairs or not uses:
+        ctx.ob('C17.items', enc, 'native record encoder pairs items() with named types by position', True,
+               'the encoder no longer relies on positions', note=True)
+        return
+    n = 0
+    for nm in ('items', 'values'):
+        f = ctx.func('type.univ.SequenceAndSetBase.%s' % nm)
+        cfg = ctx.cfg(f)
+        loops = [x for x in cfg.nodes if x.kind == 'for']
+        if not loops:
+            raise AnalysisError('position loop not found in %s' % f.short)
+        for h in loops:
+            ys = [x for x in cfg.stmt_nodes() if x.ast is not None and x.kind == 'stmt' and isinstance(x.ast, ast.Expr) and
+                  isinstance(x.ast.value, (ast.Yield, ast.YieldFrom))]
+            starts = [s for s, lab in h.succs if lab == 'item']
+            skip = False
+            for s0 in starts:
+                if s0 in ys:
+                    continue
+                if s0 is h or h in cfg.reachable(s0, avoid=ys):
+                    skip = True
+            n += 1
+            ctx.ob('C17.items', f, 'every position produces one element of %s()' % nm, not skip,
+                   'a pass through the loop can end without a yield: the positions of what follows shift, and %s tests `namedTypes[idx]` of '
+                   'the wrong member (the member after an absent OPTIONAL is left out of the native value)' % enc.short if skip else
+                   'each pass yields', node=h.ast)
+    if n < 2:
+        raise AnalysisError('C17.items: loops not found')
+
+
+# ------------------------------------------------------------------- A11.tz
+
+def rule_offset_verbatim(ctx):
+    """A11.tz: the tzinfo that `asDateTime` attaches carries the offset that was parsed: `FixedOffset.__init__` hands its
+    `offset` argument to `timedelta(minutes=...)` as it came (no wrapping, clamping or rounding on the way)."""
+    f = ctx.func('type.useful.TimeMixIn.FixedOffset.__init__')
+    from sa.cfg import reaching_defs
+    cfg = ctx.cfg(f)
+    params = f.params()
+    rd = reaching_defs(cfg, params)
+    calls = []
+    for nd in cfg.stmt_nodes():
+        for e in _exprs(nd):
+            for c in ast.walk(e):
+                if isinstance(c, ast.Call) and norm(c.func).endswith('timedelta'):
+                    calls.append((nd, c))
+    if not calls:
+        raise AnalysisError('timedelta call not found in %s' % f.short)
+    for nd, c in calls:
+        arg = None
+        for k in c.keywords:
+            if k.arg == 'minutes':
+                arg = k.value
+        ok = isinstance(arg, ast.Name) and arg.id in params and all(d.kind == 'entry' for d in rd[nd].get(arg.id, ()))
+        ctx.ob('A11.tz', f, '`%s` receives the offset argument as given' % norm(c)[:50], ok,
+               'the offset is `%s`%s: an offset of +12:00 and beyond (or below -12:00) comes back as the one a day away - same wall '
+               'clock, another instant' % (norm(arg) if arg is not None else '?', '' if not isinstance(arg, ast.Name) else ' after a re-definition')
+               if not ok else 'minutes=offset', node=c)
